@@ -52,6 +52,10 @@ def check(repo, res, tier):
                        '(else the reservation outlives the run: "no reservation outstanding at the end")')
     borrow(repo, res, tier, c09, {'C09.R4'}, 'C02.P6')
     from . import c04
+    res.rule('C02.P11', 'adopted C04.T7: at workflow end the scheduler releases the reservation under the key it was made with '
+                        '(the observation name) -- else "no reservation outstanding at the end" fails for every algorithm that '
+                        'leaves the release to the scheduler')
+    borrow(repo, res, tier, c04, {'C04.T7'}, 'C02.P11')
     res.rule('C02.P8', 'adopted C04.T2: a task is FINISHED only after the cluster has taken its machine back -- a task reported '
                        'finished one event early lets a fully busy reservation be "released" while empty, and it is then never dropped')
     borrow(repo, res, tier, c04, {'C04.T2'}, 'C02.P8')
@@ -164,6 +168,8 @@ def p2(repo, res, canon, us):
     reported = set()
     n_moves = 0
     move_sites = set()
+    from ..norm import Logic as _Logic, Lit
+    _lg = _Logic(canon)
     for u in us:
         if CU.raises(u):
             continue
@@ -236,6 +242,30 @@ def p2(repo, res, canon, us):
                 else:
                     ok = False
                     break
+            # a move spelled append-then-remove: the remove is the step that can refuse (ValueError
+            # when the machine is not in the source pool), and by then the append has happened --
+            # unless the machine is known to be in the source (taken from it, or tested)
+            if ok:
+                for j in range(0, len(lst) - 1, 2):
+                    (k1, p1, e1), (k2, p2, e2) = lst[j], lst[j + 1]
+                    if k1 == 'append' and k2 == 'remove':
+                        arg = e2.node.args[0] if isinstance(e2.node, ast.Call) and e2.node.args else None
+                        P = pcanon.p(arg, e2.ev.frame) if arg is not None else ''
+                        # taken from that pool: its provenance mentions an element of the pool and no other pool
+                        others = [q_ for q_ in list(CU.POOLS) + [CU.IDLE_PREFIX] if q_ != e2.loc and q_ in P]
+                        by_prov = (('elem(%s' % e2.loc) in P or (e2.loc + '[') in P) and not others
+                        by_fact = u.facts_in.get((e2.arg, e2.loc)) is True or any(
+                            x.kind == 'test' and Lit('%s in %s' % (e2.arg, e2.loc), True) in _lg.must(x.node, x.frame, x.pol)
+                            for x in u.events[:u.events.index(e2.ev)] if x.kind == 'test') if e2.ev in u.events else False
+                        key = (u.func.qual, 'append-before-remove', e2.node.lineno)
+                        if not (by_prov or by_fact) and key not in reported:
+                            reported.add(key)
+                            res.bad('C02.P2', u.func, e2.node, 'machine %s appended to %s before it is removed from %s' % (
+                                short(m, 40), p1, p2),
+                                'the machine is put into the %s pool before `%s` has taken it out of the %s pool, and nothing '
+                                'on this path establishes that it is there: when it is not (a machine on ingest proposed for '
+                                'a workflow task), remove() raises after the append -- the call is refused but the machine '
+                                'stays in two pools' % (p1, short(ast.unparse(e2.node), 50), p2), path=u.path.describe())
             if ok and pending is not None:
                 if pending == ('append', 'available') and bulk_pop and not chain:
                     chain.append(('idle(all)', 'available'))
